@@ -563,6 +563,92 @@ theorem c07_overlap_cached_verdict_identical (cfg : Cfg) (H : Hashes) (ops : Lis
   subst hres
   exact ⟨rfl, rfl, rfl, rfl⟩
 
+/-! ### re-assigned configuration (open finding C07-gate-reassigned-cache)
+
+`gate_logic`, `enable_cache`, `cache_ttl`, … are public attributes; `execR` runs histories in which they are
+re-assigned on the live loop (`ROp.assign`: configuration replaced, state kept). -/
+
+/-- Histories with re-assigned configuration, in full: every reply that is not blocked — fresh or cached — traces
+    back to a request of the history (itself when fresh, else a strictly earlier one with the same cache key) at
+    which both agents actually answered (that request's own reply came from the gate, not from the cache), with
+    verdicts that satisfy the gate logic IN FORCE AT THAT REQUEST; the reply is a SUCCESS carrying the token the
+    gate built then. -/
+theorem c07_reconfigured_unblocked_reply_traces_to_verdicts (H : Hashes) (cfg0 : Cfg) (ops : List ROp)
+    (tr1 tr2 : List RObs) (o : RObs) (r : Result) (hsplit : (execR H cfg0 init ops).2 = tr1 ++ o :: tr2)
+    (hr : o.out.result = some r) (hb : r.blocked = false) :
+    ∃ o' ∈ tr1 ++ [o], ∃ (p : Prompt) (zr yr : Resp) (p' : Prompt) (z y : Cls) (ev : BEvent),
+      o.op = .run p zr yr ∧ o'.op = .run p' (.ret z) (.ret y) ∧ H.md5 p'.id = H.md5 p.id ∧
+      o'.out = ⟨.gated ev, some (gateResult H o'.cfg.gate p' z y)⟩ ∧
+      criterion o'.cfg.gate z y = true ∧ r.success = true ∧ r.action = .success ∧
+      r.token = (gateResult H o'.cfg.gate p' z y).token ∧ (r.cached = false → o' = o) := by
+  have hmem : ∀ x ∈ tr1 ++ [o], x ∈ (execR H cfg0 init ops).2 := by
+    intro x hx; rw [hsplit]
+    rcases List.mem_append.mp hx with h | h
+    · exact List.mem_append_left _ h
+    · simp at h; subst h; simp
+  have fromGate : ∀ (g : Gate) (q : Prompt) (z y : Cls), (gateResult H g q z y).blocked = false →
+      criterion g z y = true ∧ (gateResult H g q z y).success = true ∧ (gateResult H g q z y).action = .success := by
+    intro g q z y h
+    have hb' : (applyGate g z y).blocked = false := by simpa [gateResult] using h
+    have hs := (c07_gate_result_shape g z y).1 hb'
+    exact ⟨(c07_gate_sound g z y).mp hb', by simpa [gateResult] using hs.1, by simpa [gateResult] using hs.2⟩
+  cases hc : r.cached
+  · have ho := execR_obs H ops cfg0 init o (hmem o (by simp))
+    obtain ⟨ev, hout⟩ := ho.2.1 r hr hc hb
+    obtain ⟨p, z, y, hop, hres⟩ := ho.1 ev r hout
+    subst hres
+    have := fromGate o.cfg.gate p z y hb
+    exact ⟨o, by simp, p, .ret z, .ret y, p, z, y, ev, hop, hop, rfl, hout, this.1, this.2.1, this.2.2, rfl, fun _ => rfl⟩
+  · have hkind : o.out.kind = .cacheHit := (execR_obs H ops cfg0 init o (hmem o (by simp))).2.2 r hr hc
+    obtain ⟨o', ho', p, p', zr, yr, zr', yr', r', ev, hop, hop', hmd, hout', _, hres⟩ :=
+      execR_originals H ops cfg0 init [] (by intro e he; simp [init] at he) tr1 tr2 o hsplit hkind
+    have ho'1 : o' ∈ tr1 := by simpa using ho'
+    obtain ⟨p'', z, y, hop'', hres'⟩ :=
+      (execR_obs H ops cfg0 init o' (hmem o' (List.mem_append_left _ ho'1))).1 ev r' hout'
+    simp only [RObs.toObs] at hop hop' hout' hres
+    rw [hop'] at hop''
+    cases hop''
+    rw [hr] at hres
+    cases hres
+    subst hres'
+    have := fromGate o'.cfg.gate p' z y (by simpa using hb)
+    exact ⟨o', List.mem_append_left _ ho'1, p, zr, yr, p', z, y, ev, hop, hop', hmd, hout', this.1, this.2.1,
+      this.2.2, rfl, fun h => by simp at h⟩
+
+/-- Clause 1 with "the configured gate logic" read at the time of the request, outside the finding's trigger: if
+    the gate logic was not re-assigned between the requests of the history up to this one (other attributes may
+    have been), every un-blocked reply — cached ones included — goes back to verdicts that satisfy the gate logic
+    configured NOW. -/
+theorem c07_configured_gate_partial (H : Hashes) (cfg0 : Cfg) (ops : List ROp)
+    (tr1 tr2 : List RObs) (o : RObs) (r : Result) (hsplit : (execR H cfg0 init ops).2 = tr1 ++ o :: tr2)
+    (hgate : ∀ x ∈ tr1, x.cfg.gate = o.cfg.gate)
+    (hr : o.out.result = some r) (hb : r.blocked = false) :
+    ∃ o' ∈ tr1 ++ [o], ∃ (p' : Prompt) (z y : Cls), o'.op = .run p' (.ret z) (.ret y) ∧
+      criterion o.cfg.gate z y = true ∧ r.token = (gateResult H o.cfg.gate p' z y).token := by
+  obtain ⟨o', ho', p, zr, yr, p', z, y, ev, _, hop', _, _, hcrit, _, _, htok, _⟩ :=
+    c07_reconfigured_unblocked_reply_traces_to_verdicts H cfg0 ops tr1 tr2 o r hsplit hr hb
+  have hg : o'.cfg.gate = o.cfg.gate := by
+    rcases List.mem_append.mp ho' with h | h
+    · exact hgate o' h
+    · simp at h; rw [h]
+  rw [hg] at hcrit htok
+  exact ⟨o', ho', p', z, y, hop', hcrit, htok⟩
+
+-- FULL (false on current tree): the same without `hgate` — "every un-blocked reply goes back to verdicts that
+-- satisfy the gate logic configured at the time of THIS request".
+/-- Witness (open finding C07-gate-reassigned-cache; reproduced on the real code, corpus/C07/gate_reassigned.json):
+    a loop configured OR answers `p` with executor EXECUTE / assessor BLOCK: SUCCESS, cached.  `loop.gate_logic =
+    AND` is assigned.  The same prompt comes back un-blocked from the cache although the verdicts it goes back to
+    do not satisfy AND (the cache key does not contain the gate logic, nothing is cleared on assignment). -/
+theorem c07_gate_reassigned_cache_witness :
+    ((execR idHashes { gate := .or } init
+        [.op (.run ⟨1, true⟩ (.ret .execute) (.ret .block)), .assign { gate := .and },
+         .op (.run ⟨1, true⟩ (.ret .execute) (.ret .block))]).2.map
+      fun o => (o.cfg.gate, o.out.result.map (·.blocked), o.out.result.map (·.cached),
+                criterion o.cfg.gate .execute .block)) =
+    [(.or, some false, some false, true), (.and, some false, some true, false)] := by
+  decide
+
 /-- The injectivity hypothesis of `c07_token_binds_request` is needed (and is the modelled assumption about the
     truncated md5 cache key): with a colliding key a reply for prompt 2 is served from prompt 1's entry and
     carries a token bound to prompt 1. -/
@@ -572,6 +658,42 @@ theorem c07_binding_needs_injective_key_witness :
                                .run ⟨2, true⟩ (.ret .execute) (.ret .permit)]).2
     (tr.map fun o => o.out.result.bind (·.token)) = [some ⟨1, .assessor⟩, some ⟨1, .assessor⟩] := by
   decide
+
+/-- The same hypothesis is needed for clause 1 when "the verdicts" are read as the verdicts on THIS prompt: with a
+    colliding cache key, prompt 2 — which both agents would BLOCK — comes back un-blocked from prompt 1's entry
+    without either agent having seen it.  (`c07_unblocked_reply_traces_to_verdicts` is unconditional because it
+    speaks of a request "with the same cache key"; 64-bit truncated md5 keys of chosen prompts can collide.) -/
+theorem c07_unblocked_needs_injective_key_witness :
+    let H : Hashes := ⟨fun _ => 0, id⟩
+    let tr := (exec {} H init [.run ⟨1, true⟩ (.ret .execute) (.ret .permit),
+                               .run ⟨2, true⟩ (.ret .block) (.ret .block)]).2
+    (tr.map fun o => o.out.result.map fun r => (r.blocked, r.cached)) = [some (false, false), some (false, true)] ∧
+    criterion .and .block .block = false := by
+  decide
+
+/-- What holds without any assumption on the cache key: a token that comes back with a reply is the token the gate
+    built for the ORIGINAL request — bound to the hash of the original's prompt `p'`.  So whoever checks the token
+    against the prompt at hand detects a cache-key collision: if the token's hash is the hash of this request's
+    prompt and the binding hash is injective, the original's prompt IS this prompt. -/
+theorem c07_token_bound_to_original_prompt (cfg : Cfg) (H : Hashes) (ops : List Op) (tr1 tr2 : List Obs)
+    (o : Obs) (r : Result) (t : Token) (hsplit : (exec cfg H init ops).2 = tr1 ++ o :: tr2)
+    (hr : o.out.result = some r) (hb : r.blocked = false) (ht : r.token = some t) :
+    ∃ o' ∈ tr1 ++ [o], ∃ (p : Prompt) (zr yr : Resp) (p' : Prompt) (z y : Cls),
+      o.op = .run p zr yr ∧ o'.op = .run p' (.ret z) (.ret y) ∧ H.md5 p'.id = H.md5 p.id ∧
+      t = ⟨H.sha p'.id, .assessor⟩ ∧ y = .permit ∧
+      ((∀ a b, H.sha a = H.sha b → a = b) → t.hash = H.sha p.id → p'.id = p.id) := by
+  obtain ⟨o', ho', p, zr, yr, p', z, y, hop, hop', hmd, _, _, _, htok⟩ :=
+    c07_unblocked_reply_traces_to_verdicts cfg H ops tr1 tr2 o r hsplit hr hb
+  rw [ht] at htok
+  have hty : t = ⟨H.sha p'.id, .assessor⟩ ∧ y = .permit := by
+    simp only [gateResult] at htok
+    revert htok
+    generalize cfg.gate = g
+    cases g <;> cases z <;> cases y <;> simp [applyGate, errorOut] <;> intro h <;> exact h
+  refine ⟨o', ho', p, zr, yr, p', z, y, hop, hop', hmd, hty.1, hty.2, ?_⟩
+  intro hsha hh
+  rw [hty.1] at hh
+  exact hsha _ _ hh
 
 /-! ### Non-vacuity: concrete requests and histories meeting the hypotheses -/
 
@@ -609,5 +731,14 @@ example : phaseReplies (execPhases {} idHashes init [.lookup (pr 1), .execCall, 
      ⟨.gated .neither, some ⟨true, .skipped, true, none, false⟩⟩,
      ⟨.cacheHit, some ⟨true, .success, false, some ⟨2, .assessor⟩, true⟩⟩,
      ⟨.cacheHit, some ⟨true, .skipped, true, none, true⟩⟩] := by decide
+
+/-- a history with re-assignments (TTL, then gate logic) in which the hypotheses of
+    `c07_reconfigured_unblocked_reply_traces_to_verdicts` and — for the first two requests — of
+    `c07_configured_gate_partial` are met: the cached SUCCESS of request 2 goes back to request 1 -/
+example : ((execR idHashes { gate := .or } init
+      [.op (.run (pr 1) (.ret .execute) (.ret .block)), .assign { gate := .or, ttl := 5 },
+       .op (.run (pr 1) .exc .exc), .assign { gate := .and, ttl := 5 }, .op (.run (pr 2) (.ret .execute) (.ret .block))]).2.map
+      fun o => o.out.result.map fun r => (r.blocked, r.cached)) =
+    [some (false, false), some (false, true), some (true, false)] := by decide
 
 end Operon.Cffl
